@@ -29,6 +29,10 @@
 \*     whose key starts with the prefix, each once, in ascending key order, with the same content as Get.
 \*     A RequiresRestart option whose value was changed carries the restart-pending annotation from then on
 \*     (after an attempt that changed nothing, or a ReplaceConfig, it may or may not).
+\*     A subscriber of the database "config" receives the option's record in its new state exactly once
+\*     for every successful SetConfigOption / SetDefaultConfigOption / Put, one record of every option for
+\*     a ReplaceConfig, nothing for reads, registrations and perspectives (after a failed attempt it may
+\*     receive the unchanged record; what a Delete sends is not specified).
 \*  G5 levels: the options core/releaseLevel (stable beta experimental) and core/expertiseLevel (user
 \*     expert developer) exist from the start and accept exactly these values; the level in force is the
 \*     user value, else the runtime default, else the registered default, and follows every change at
@@ -131,7 +135,17 @@ Op(name, k, raw, spec, m) == [op |-> name, k |-> k, raw |-> raw, spec |-> spec, 
 Res(err, recs, keys, vals) == [err |-> err, recs |-> recs, keys |-> keys, vals |-> vals]
 Plain(err) == Res(err, <<>>, {}, {})
 \* may: options that may, but need not, have become restart-pending
-Out(r, st, may) == [res |-> r, st |-> st, may |-> may]
+\* fd: what a subscriber of the database receives during the operation: the views in must exactly once each, the
+\* views in may at most once each, anything about the keys in any
+Fd(must, may, any) == [must |-> must, may |-> may, any |-> any]
+NoFd == Fd({}, {}, {})
+OutF(r, st, may, fd) == [res |-> r, st |-> st, may |-> may, fd |-> fd]
+Out(r, st, may) == OutF(r, st, may, NoFd)
+Count(seq, x) == Cardinality({i \in 1..Len(seq) : seq[i] = x})
+FeedOK(feed, fd) ==
+    /\ \A v \in fd.must : Count(feed, v) = 1
+    /\ \A v \in fd.may : Count(feed, v) <= 1
+    /\ \A i \in 1..Len(feed) : feed[i] \in fd.must \cup fd.may \/ feed[i].k \in fd.any
 \* "anyerr": the statement only says that the call fails
 
 SetField(st, layer, k, c) ==
@@ -143,11 +157,12 @@ SetField(st, layer, k, c) ==
 MayPend(st, k) == IF st.reg[k].rr = 1 THEN {k} ELSE {}
 
 \* SetConfigOption / SetDefaultConfigOption / database Put ("absent": a record without "Value") and Delete
-SetStep(st, layer, k, raw, unknownErr) ==
-    IF k \notin Keys(st) THEN {Out(Plain(unknownErr), st, {})}
-    ELSE IF raw \in {"nil", "absent"} THEN {Out(Plain("ok"), SetField(st, layer, k, "-"), MayPend(st, k))}
-    ELSE IF Valid(st.reg[k], raw) THEN {Out(Plain("ok"), SetField(st, layer, k, Canon(raw)), MayPend(st, k))}
-    ELSE {Out(Plain("anyerr"), st, MayPend(st, k))}
+SetStep(st, layer, k, raw, unknownErr, isDelete) ==
+    LET done(nst) == OutF(Plain("ok"), nst, MayPend(st, k), IF isDelete THEN Fd({}, {}, {k}) ELSE Fd({View(nst, k)}, {}, {}))
+    IN IF k \notin Keys(st) THEN {Out(Plain(unknownErr), st, {})}
+       ELSE IF raw \in {"nil", "absent"} THEN {done(SetField(st, layer, k, "-"))}
+       ELSE IF Valid(st.reg[k], raw) THEN {done(SetField(st, layer, k, Canon(raw)))}
+       ELSE {OutF(Plain("anyerr"), st, MayPend(st, k), Fd({}, {View(st, k)}, {}))}
 
 MapKeys(m) == {m[i].k : i \in 1..Len(m)}
 MapRaw(m, k) == (CHOOSE e \in Range(m) : e.k = k).raw
@@ -161,10 +176,10 @@ Step(st, o) ==
          IN IF refuse THEN {Out(Plain("anyerr"), st, {})}
             ELSE IF o.k \in Keys(st) THEN {Out(Plain("ok"), nst, {}), Out(Plain("anyerr"), st, {})}
             ELSE {Out(Plain("ok"), nst, {})}
-    [] o.op = "setuser" -> SetStep(st, "u", o.k, o.raw, "anyerr")
-    [] o.op = "setdef"  -> SetStep(st, "df", o.k, o.raw, "anyerr")
-    [] o.op = "dbput"   -> SetStep(st, "u", o.k, o.raw, "anyerr")
-    [] o.op = "dbdel"   -> SetStep(st, "u", o.k, "nil", "anyerr")
+    [] o.op = "setuser" -> SetStep(st, "u", o.k, o.raw, "anyerr", FALSE)
+    [] o.op = "setdef"  -> SetStep(st, "df", o.k, o.raw, "anyerr", FALSE)
+    [] o.op = "dbput"   -> SetStep(st, "u", o.k, o.raw, "anyerr", FALSE)
+    [] o.op = "dbdel"   -> SetStep(st, "u", o.k, "nil", "anyerr", TRUE)
     [] o.op = "dbget"   -> IF o.k \in Keys(st) THEN {Out(Res("ok", <<View(st, o.k)>>, {}, {}), st, {})}
                            ELSE {Out(Plain("notfound"), st, {})}
     [] o.op = "dbquery" -> {Out(Res("ok", Views(st, o.k), {}, {}), st, {})}
@@ -172,7 +187,9 @@ Step(st, o) ==
          LET val(k) == k \in MapKeys(o.m) /\ Valid(st.reg[k], MapRaw(o.m, k))
              inv == {k \in Keys(st) \cap MapKeys(o.m) : ~val(k)}
              nreg == [k \in Keys(st) |-> [st.reg[k] EXCEPT !.u = IF val(k) THEN Canon(MapRaw(o.m, k)) ELSE "-"]]
-         IN {Out(Res("ok", <<>>, inv, {}), [st EXCEPT !.reg = nreg], {k \in Keys(st) : st.reg[k].rr = 1})}
+             nst == [st EXCEPT !.reg = nreg]
+         IN {OutF(Res("ok", <<>>, inv, {}), nst, {k \in Keys(st) : st.reg[k].rr = 1},
+                  Fd({View(nst, k) : k \in Keys(nst)}, {}, {}))}
     [] o.op = "persp" ->
          LET known == Keys(st) \cap MapKeys(o.m)
              good == {k \in known : Valid(st.reg[k], MapRaw(o.m, k))}
@@ -202,4 +219,9 @@ FailuresChangeNothing(st, o) == \A x \in Step(st, o) :
     /\ ((x.res.err # "ok" \/ o.op \in {"dbget", "dbquery", "persp"}) => Unpend(x.st) = Unpend(st))
     /\ (o.op # "register" => Keys(x.st) = Keys(st))
     /\ Pending(st) \subseteq Pending(x.st) \/ o.op = "register"
+\* what a subscriber must receive is the state after the operation, and only a change is announced for certain
+FeedShowsResult(st, o) == \A x \in Step(st, o) :
+    /\ \A v \in x.fd.must : v.k \in Keys(x.st) /\ v = View(x.st, v.k)
+    /\ \A v \in x.fd.may : v.k \in Keys(x.st) /\ v = View(x.st, v.k)
+    /\ (x.fd.must # {} => x.res.err = "ok")
 ====
